@@ -119,6 +119,15 @@ func (s *Store) CreateSavepoint(operatorIDs, sourceRunnerIDs []string) (cpID uin
 	return s.state.checkpointID, true, nil
 }
 
+// AbandonPendingSnapshot drops a checkpoint that is still waiting for
+// acknowledgements. It is called when the assembly that was asked for the
+// checkpoint is replaced: its members will never acknowledge it.
+func (s *Store) AbandonPendingSnapshot() {
+	s.stateMu.Lock()
+	defer s.stateMu.Unlock()
+	s.state.pendingSnapshot = nil
+}
+
 func (s *Store) AddOperatorSnapshot(req *snapshotpb.OperatorCheckpoint) error {
 	s.stateMu.Lock()
 	defer s.stateMu.Unlock()
